@@ -36,6 +36,14 @@ class Ctx:
         self.kdf_cache = {}
         self.expensive = 0
         self.skipped = 0
+        self.kinds = {}
+
+    def violation(self, what, case, site):
+        """at most 5 recorded failures per kind, so the replay file shows every kind that occurred"""
+        self.kinds[what] = self.kinds.get(what, 0) + 1
+        self.run.count("violation_" + what)
+        if self.kinds[what] <= 5:
+            self.run.oracle_violation(what, case, site)
 
     def sha(self, b):
         from cryptography.hazmat.primitives import hashes
@@ -182,23 +190,23 @@ def judge(ctx, c, o):
     if o[0] == 1:
         run.count("outcome_raise_%d" % o[1])
         if o[1] not in (lib.ERR["ValueError"], lib.ERR["TypeError"], lib.ERR["UnicodeError"]):
-            run.oracle_violation("wrong-exception-kind", d, site)
+            ctx.violation("wrong-exception-kind", d, site)
         elif c.get("expect") in (True, False):
-            run.oracle_violation("honest-hash-raises", d, site)
+            ctx.violation("honest-hash-raises", d, site)
     elif o[1] == 1:
         run.count("outcome_true")
         if c.get("expect") == "reject":
-            run.oracle_violation("corrupted-hash-accepted", d, site)
+            ctx.violation("corrupted-hash-accepted", d, site)
         elif c.get("expect") is False:
-            run.oracle_violation("other-password-accepted", d, site)
+            ctx.violation("other-password-accepted", d, site)
         elif not matches(c["pw"], c["h"]):
-            run.oracle_violation("accepts-without-match", d, site)
+            ctx.violation("accepts-without-match", d, site)
     elif o[1] == 0:
         run.count("outcome_false")
         if c.get("expect") is True:
-            run.oracle_violation("own-password-rejected", d, site)
+            ctx.violation("own-password-rejected", d, site)
     else:
-        run.oracle_violation("result-not-a-bool", d, site)
+        ctx.violation("result-not-a-bool", d, site)
     if c.get("reaches_kdf") or c.get("expect") in (True, False):
         run.nt((repr(c["pw"]), repr(c["h"])))
 
@@ -226,12 +234,9 @@ def hash_batch(ctx, cases):
         if isinstance(pw, bytes):
             km = ctx.sha(pw)
             ka = ctx.kdf(salt, DL, N, r, p, km)
-            b64 = [[packed, base64.b64encode(packed)]]
-            if ka[0] == 0:
-                b64.append([salt + ka[1], base64.b64encode(salt + ka[1])])
-            margs.append([v_py(pw), salt, [[pw, km]], b64, [[[salt, DL, N, r, p, km], ka]]])
+            margs.append([v_py(pw), salt, [[pw, km]], [[[salt, DL, N, r, p, km], ka]]])
         else:
-            margs.append([v_py(pw), salt, [], [], []])
+            margs.append([v_py(pw), salt, [], []])
     mod = M.call_many("auth_hash", margs)
     run.compare("auth_hash", [{"password": pw if isinstance(pw, bytes) else repr(pw), "salt": salt} for pw, salt in cases], impl, mod)
     return impl
@@ -392,6 +397,35 @@ def run(run):
     run.count("cheap_hash_cases", total)
     run.exhaustive.append("per cheap hash: every truncation, every field removed/emptied/duplicated, every single-character "
                           "replacement/deletion/insertion in both base64 fields, (salt_length, length) grid")
+
+    # ---- base64.b64encode is modelled exactly: correspondence of the encoder
+    ecases = [bytes([a]) for a in range(256)] + [b""]
+    if run.thorough():
+        ecases += [bytes([a, b]) for a in range(256) for b in range(256)]
+        run.exhaustive.append("b64encode: every input of length 0, 1 and 2")
+    else:
+        ecases += [bytes([a, b]) for a in range(0, 256, 5) for b in (0, 1, 15, 16, 63, 64, 127, 128, 254, 255)]
+        run.exhaustive.append("b64encode: every input of length 0 and 1")
+    for n in list(range(3, 80)) * (10 if run.thorough() else 2) + [255, 256, 257, 1000, 4099]:
+        ecases.append(bytes(rng.randrange(256) for _ in range(n)))
+    ecases += [bytes([a, b, c]) for a in (0, 3, 4, 252, 255) for b in (0, 15, 16, 240, 255) for c in (0, 63, 64, 192, 255)]
+    for _ in range(20000 if run.thorough() else 1500):
+        ecases.append(bytes(rng.randrange(256) for _ in range(3)))
+    run.compare("auth_b64encode", ecases, [base64.b64encode(x) for x in ecases], M.call_many("auth_b64encode", [[x] for x in ecases]))
+    # the reference decoder (consistency witness of the decoder hypotheses) against the validating
+    # library decoder on encodings, their prefixes and single-character damage
+    dcases = []
+    for x in ecases[:400] + ecases[-300:]:
+        e = base64.b64encode(x)
+        dcases.append(e)
+        if e:
+            j = rng.randrange(len(e))
+            dcases += [e[:j], e[:j] + bytes([rng.choice(b":!A/+z9 ")]) + e[j + 1:], e[:j] + e[j + 1:]]
+    dcases = list(dict.fromkeys(dcases))
+
+    def strict(x):
+        return base64.b64decode(x, validate=True)
+    run.compare("auth_b64strict", dcases, [lib.guarded(strict, x) for x in dcases], M.call_many("auth_b64strict", [[x] for x in dcases]))
 
     # ---- hypotheses about base64 sampled on the real library
     for n in list(range(0, 70)) + [100, 255, 1000]:
